@@ -103,6 +103,13 @@ func runSolver(sp solverSpec, file string, timeout int) (string, string, float64
 	cmd.Run()
 	el := time.Since(t0).Seconds()
 	s := out.String()
+	for strings.HasPrefix(s, "WARNING") || strings.HasPrefix(s, "(warning") {
+		if i := strings.Index(s, "\n"); i >= 0 {
+			s = s[i+1:]
+		} else {
+			break
+		}
+	}
 	first := strings.TrimSpace(strings.SplitN(s, "\n", 2)[0])
 	switch first {
 	case "sat", "unsat", "unknown":
